@@ -80,6 +80,9 @@ def f32(x):
 
 def check_index(reader, texts, fmt, where, field_boost=1.0):
     post, lengths = model(texts)
+    if fmt == "existence":
+        # the Existence format records each distinct term once, so the field length is the number of distinct terms
+        lengths = dict((d, len([1 for plist in post.values() if any(e[0] == d for e in plist)])) for d in lengths)
     try:
         lex = sorted(reader.field_terms("t"))
     except Exception as e:  # noqa
@@ -130,7 +133,7 @@ def check_index(reader, texts, fmt, where, field_boost=1.0):
         wstats = (len(want), round(sum(weights), 4), want[0][0], want[-1][0], round(max(weights), 4))
         if stats != wstats:
             return "%s: term_info(%r) (df, weight, min_id, max_id, max_weight) = %r, true aggregates %r" % (where, term, stats, wstats)
-        if fmt != "existence" or True:
+        if True:
             mn, mx = ti.min_length(), ti.max_length()
             wmn = byte_to_length(length_to_byte(min(lens)))
             wmx = byte_to_length(length_to_byte(max(lens)))
@@ -158,7 +161,7 @@ def check_index(reader, texts, fmt, where, field_boost=1.0):
     for docnum in range(len(texts)):
         got = reader.doc_field_length(docnum, "t")
         wantl = byte_to_length(length_to_byte(lengths[docnum])) if lengths[docnum] else 0
-        if got != wantl and fmt != "existence":
+        if got != wantl:
             return "%s: doc_field_length(%d) = %r, true (byte-approximated) %r" % (where, docnum, got, wantl)
     return None
 
